@@ -54,12 +54,36 @@ def run(res, case):
             for _ in range(int(case["pre"][1])):
                 proto.get_and_increment_sequence_counter(True)
                 m.next(True)
-            for op in case["ops"]:
+            RESP = {"press": b"PACKS", "set": b"PACKS", "getwc": b"WCGET", "rem": b"RMREQ", "channel": b"CHCUR"}
+            for ix, op in enumerate(case["ops"]):
                 clients.keep_ping_fresh(spa, W)
                 w0 = len(W.wire)
                 k = op[0]
                 if k not in EXPECT:
                     raise InvalidCase(op)
+                n_exp = 1
+                if ix in case.get("lose", []) and k in RESP:
+                    # the reply to the first attempt is lost: the library builds the request again after timeout + pause
+                    n_exp = 2
+                    left = {"n": 1}
+
+                    def flt(data, _v=RESP[k]):
+                        if left["n"] > 0 and b"<DATAS>" + _v in data:
+                            left["n"] -= 1
+                            return "drop"
+                        return None
+                    W.s2c_filter = flt
+                    stats["lost"] = True
+                    # the gates look at the age of the last ping: keep it fresh while the retry is pending
+                    import asyncio as _a
+
+                    async def fresh():
+                        while True:
+                            clients.keep_ping_fresh(spa, W)
+                            await W.sleep(0.5)
+                    keeper = _a.ensure_future(fresh())
+                else:
+                    keeper = None
                 if k == "press":
                     await spa.async_press(int(op[1]) % 24)
                 elif k == "set":
@@ -88,10 +112,36 @@ def run(res, case):
                     W.inject(W.transports[-1], R.frame(sim.vp_identifier, clients.CLIENT_ID, body), peer.addr)
                     await W.sleep(0.6)
                 await W.sleep(0.3)
+                if keeper is not None:
+                    if k in ("press", "set"):
+                        # fire-and-forget commands: wait for the retry to have gone out
+                        for _ in range(60):
+                            if sum(1 for v, _s in seq_datagrams(w0) if v == b"SPACK") >= 2:
+                                break
+                            await W.sleep(0.25)
+                        await W.sleep(0.5)
+                    keeper.cancel()
+                    W.s2c_filter = None
                 verb_exp, is_cmd = EXPECT[k]
                 got = [(v, s) for v, s in seq_datagrams(w0)]
                 mine = [(v, s) for v, s in got if v == verb_exp]
                 other = [(v, s) for v, s in got if v != verb_exp]
+                if n_exp == 2 and len(mine) == 2 and not other:
+                    lo, hi = (192, 255) if is_cmd else (1, 191)
+                    for v, s in mine:
+                        exp = m.next(is_cmd)
+                        if not (lo <= s <= hi):
+                            res.fail(f"C16|wire_async|{k}|range", f"retried {v!r} carries sequence {s}, expected {lo}..{hi}")
+                        elif s != exp:
+                            res.fail(f"C16|wire_async|{k}|retry-successor", f"{v!r} sent twice (first reply lost) with sequences {[x for _, x in mine]}; "
+                                     f"the successor in its cycle is {exp}")
+                            if is_cmd:
+                                m.c = s
+                            else:
+                                m.p = s
+                    if is_cmd:
+                        stats["cmd"] += 1
+                    continue
                 if len(mine) != 1 or other:
                     res.fail(f"C16|wire_async|{k}|count", f"{op}: datagrams with a sequence byte on the wire: {got}")
                     for v, s in got:   # keep the model in step
@@ -122,3 +172,5 @@ def run(res, case):
     res.label("wire_async")
     if stats["wrap"]:
         res.label("wire_async-wrap")
+    if stats.get("lost"):
+        res.label("wire_async-retried-request")
